@@ -1,5 +1,6 @@
 import PyTrie.Props.C01
 import PyTrie.Model.HexEnc
+import PyTrie.Lemmas.YellowPaper
 /-! # C02 — the root hash is a function of the contents only (canonical MPT root)
 
 `rootHash H t = H (rlp (toItem H t))` is the Yellow-Paper encoding of the tree `t`
@@ -70,5 +71,26 @@ theorem blank_root_constant :
 /-- non-vacuity: two different insertion orders with an overwrite and a deleted key -/
 example : (∀ k, spec [.set [1] [5], .set [2] [6], .set [1] [7], .delete [2]] k = spec [.set [2] [9], .delete [2], .set [1] [7]] k) := by
   intro k; simp only [spec, List.foldl, specStep]; split <;> simp_all
+
+/-! ## Conformance with the Yellow Paper (Appendix D), proved
+
+`YP.ypC` / `YP.ypRef` / `YP.ypRoot` are the paper's `c(J, i)`, `n(J, i)`, `TRIE(J)` written out literally over the list of
+(nibble key, value) pairs (`Lemmas/YellowPaper.lean`). `itemsOf t` is the sorted list of the stored pairs
+(`C10.items_exact`, `C10.items_sorted`). -/
+
+/-- the raw node structure py-trie builds for any history **is** the Yellow Paper's construction applied
+    to the current contents; the root hash is `TRIE(contents)` — for every hash function `H` -/
+theorem root_is_yellow_paper_trie (H : Bytes → Bytes) (ops : List Op) :
+    rootHash H (run ops) = YP.ypRoot H (YP.height (run ops)) (itemsOf (run ops)) :=
+  YP.rootHash_eq_ypRoot H (run ops) (canon_run ops) _ (Nat.le_refl _)
+
+/-- every canonical subtree is `c(J, i)` of its contents, every child reference is `n(J, i)` -/
+theorem node_is_yellow_paper_c (H : Bytes → Bytes) (t : Node) (hc : Canon t) (hb : isBlank t = false) (pre : Path) :
+    toItem H t = YP.ypC H (YP.height t) (YP.entriesAt t pre) pre.length :=
+  YP.toItem_eq_ypC H t hc hb pre _ (Nat.le_refl _)
+
+theorem ref_is_yellow_paper_n (H : Bytes → Bytes) (t : Node) (hc : Canon t) (pre : Path) :
+    refOf H t = YP.ypRef H (YP.entriesAt t pre) (YP.ypC H (YP.height t) (YP.entriesAt t pre) pre.length) :=
+  YP.refOf_eq_ypRef H t hc pre _ (Nat.le_refl _)
 
 end PyTrie.Props.C02
